@@ -2,12 +2,14 @@
 import time
 from explore import Job, run_jobs, replay_with_monitor, impl_step, Disagreement
 import c09lib as L
-from c09lib import PortInst, Env, AxlMaster, WbMaster, WbPartner, AxlPartner, CsrPartner, BridgeMonitor
+from c09lib import (PortInst, Env, AxlMaster, WbMaster, WbPartner, AxlPartner, CsrPartner, BridgeMonitor, AxiMaster,
+                    AhbMaster)
 from migen import Module
 from litex.soc.interconnect import wishbone
-from litex.soc.interconnect import csr_bus
+from litex.soc.interconnect import csr_bus, ahb
 from litex.soc.interconnect.axi import (AXILiteInterface, AXILite2Wishbone, Wishbone2AXILite, AXILiteSRAM, AXILite2CSR,
-                                        AXILiteDownConverter, AXILiteUpConverter, AXILiteConverter)
+                                        AXILiteDownConverter, AXILiteUpConverter, AXILiteConverter, AXIInterface,
+                                        AXI2AXILite, AXILite2AXI, AXI2Wishbone, Wishbone2AXI)
 
 FMT = ("letter = master-driven signals of the master-side bus ++ slave-driven signals of the slave-side bus; "
        "AXI-Lite master: awvalid awaddr wvalid wdata wstrb bready arvalid araddr rready; AXI-Lite slave: awready "
@@ -187,6 +189,89 @@ def mk_axlup(dw_from, dw_to, aw, pol=None, master="single", small=False, p_err=0
     return PortInst(name, m, "axlup %d %d" % (ratio, nbf), "axl", mi, "axl", si, dom=dom, env=env, monitor=mon)
 
 
+# partner behaviour AXI2AXILite is proved for (everything else is a known finding): one read outstanding, a W
+# beat only after its AW, reads ordered after accepted writes, no error answers
+AXI2AXL_PARTNER = dict(depth=1, aw_before_w=True, ordered=True)
+
+
+def mk_axi2axl(dw, aw, pol=None, master=None, small=None, tag="", partner=None, p_err=0.0, mon_kw=None):
+    nb = dw // 8
+    axi = AXIInterface(data_width=dw, address_width=aw, id_width=2)
+    axl = AXILiteInterface(data_width=dw, address_width=aw)
+    m = AXI2AXILite(axi, axl)
+    name = "AXI2AXILite(dw=%d,aw=%d)%s" % (dw, aw, tag)
+    env = mon = None
+    if pol is not None:
+        kw = dict(AXL_POL[pol])
+        kw.update(AXI2AXL_PARTNER if partner is None else partner)
+        env = Env(AxiMaster(aw, nb, **(master or {})), AxlPartner(nb, p_err=p_err, **kw), "axl")
+        name += "/" + pol
+        mon = lambda inst: BridgeMonitor(inst, "axi", "axl", nb, nb, lambda a: a, lambda a: a & ~(nb - 1),
+                                         **(mon_kw or dict(errs=True)))
+    dom = None
+    amax = (1 << aw) - 1
+    idle_w = {"m.awvalid": (0,), "m.awaddr": (0,), "m.awburst": (0,), "m.awlen": (0,), "m.awsize": (0,), "m.awid": (0,),
+              "m.wvalid": (0,), "m.wdata": (0,), "m.wstrb": (0,), "m.wlast": (0,), "m.bready": (0,),
+              "s.awready": (0,), "s.wready": (0,), "s.bvalid": (0,), "s.bresp": (0,)}
+    idle_r = {"m.arvalid": (0,), "m.araddr": (0,), "m.arburst": (0,), "m.arlen": (0,), "m.arsize": (0,), "m.arid": (0,),
+              "m.rready": (0,), "s.arready": (0,), "s.rvalid": (0,), "s.rresp": (0,), "s.rdata": (0,)}
+    act_w = {"m.awaddr": (1, amax - 1), "m.awburst": (0, 1, 2), "m.awlen": (0, 1), "m.awsize": (log2(nb),), "m.awid": (2,),
+             "m.wdata": ((1 << dw) - 2,), "m.wstrb": (1,), "m.wlast": (0, 1), "s.bresp": (2,)}
+    if small == "w":
+        act_w["m.awburst"] = (1,)
+    act_r = {"m.araddr": (1, amax - 1), "m.arburst": (0, 1, 2), "m.arlen": (0, 1), "m.arsize": (log2(nb),), "m.arid": (1,),
+             "s.rresp": (2,), "s.rdata": ((1 << dw) - 3,)}
+    if small == "r":
+        dom = dict(idle_w, **act_r)
+    elif small == "w":
+        dom = dict(idle_r, **act_w)
+    elif small == "rw":
+        dom = {"m.awaddr": (2,), "m.awburst": (1,), "m.awlen": (1,), "m.awsize": (0,), "m.awid": (2,),
+               "m.wdata": (5,), "m.wstrb": (1,), "m.wlast": (1,), "s.bresp": (0,), "s.bvalid": (0,),
+               "m.araddr": (1,), "m.arburst": (1,), "m.arlen": (1,), "m.arsize": (0,), "m.arid": (1,),
+               "s.rresp": (0,), "s.rdata": (9,), "m.bready": (1,), "m.rready": (1,)}
+    return PortInst(name, m, "axi2axl %d" % aw, "axi", axi, "axl", axl, dom=dom, env=env, monitor=mon)
+
+
+def mk_axl2axi(dw, aw, small=False, tag=""):
+    nb = dw // 8
+    axl = AXILiteInterface(data_width=dw, address_width=aw)
+    axi = AXIInterface(data_width=dw, address_width=aw, id_width=2)
+    m = AXILite2AXI(axl, axi, write_id=1, read_id=2, prot=5)
+    extra = [axi.aw.prot, axi.aw.cache, axi.ar.prot, axi.ar.cache]
+    mf, sf = L.AXL_M, L.AXI_S
+    s_ports = (L.AXI_S, L.axi_s_sigs(axi), L.AXI_M + ("x_awprot", "x_awcache", "x_arprot", "x_arcache"),
+               L.axi_m_sigs(axi) + extra)
+    dom = None
+    if small:
+        amax = (1 << aw) - 1
+        dom = {"awaddr": (0, amax), "araddr": (0, amax), "wdata": (0, (1 << dw) - 1), "wstrb": (0, (1 << nb) - 1),
+               "bresp": (0, 2), "rresp": (0, 2), "rdata": (0, (1 << dw) - 2), "bid": (1,), "rid": (2,), "rlast": (0, 1)}
+    return PortInst("AXILite2AXI(dw=%d,aw=%d)%s" % (dw, aw, tag), m, "axl2axi %d 1 5 1 2" % log2(nb), "axl", axl,
+                    s_ports=s_ports, dom=dom)
+
+
+def mk_ahb2wb(dw, aw, addressing="word", pol=None, small=False, p_err=0.0, tag=""):
+    nb = dw // 8
+    lg = log2(nb)
+    shift = lg if addressing == "word" else 0
+    hb = ahb.AHBInterface(data_width=dw, address_width=aw)
+    wb = wishbone.Interface(data_width=dw, adr_width=aw - lg, addressing=addressing)
+    m = ahb.AHB2Wishbone(hb, wb)
+    name = "AHB2Wishbone(dw=%d,aw=%d,%s)%s" % (dw, aw, addressing, tag)
+    env = mon = None
+    if pol is not None:
+        s_amap = lambda adr: (adr << shift) & ~(nb - 1)
+        env = Env(AhbMaster(aw, nb), WbPartner(nb, p_err=p_err, amap=s_amap, **WB_POL[pol]), "wb")
+        name += "/" + pol
+        mon = lambda inst: BridgeMonitor(inst, "ahb", "wb", nb, nb, lambda a: a, s_amap, errs=True)
+    dom = None
+    if small:
+        dom = {"haddr": tuple(range(1 << aw)) if aw <= 3 else (0, (1 << aw) - 1), "hsize": (0, 1, 2, 3),
+               "htrans": (2, 3), "hwdata": ((1 << dw) - 2,), "datr": ((1 << dw) - 3,)}
+    return PortInst(name, m, "ahb2wb %d %d" % (lg, shift), "ahb", hb, "wb", wb, dom=dom, env=env, monitor=mon)
+
+
 def jobs(tier):
     quick = tier == "quick"
     J = []
@@ -237,6 +322,26 @@ def jobs(tier):
                 continue
             B(lambda f=f, t=t, pol=pol, ms=ms: mk_axlup(f, t, 32, pol=pol, master=ms, p_err=0.1))
     B(lambda: mk_axlup(16, 64, 16, tag="/garbage"))
+    # ---- AXI2AXILite / AXILite2AXI
+    A(lambda: mk_axi2axl(16, 3, small="r", tag="/read-path"))
+    A(lambda: mk_axi2axl(16, 3, small="w", tag="/write-path"), max_states=30000 if quick else 1000000)
+    A(lambda: mk_axi2axl(8, 2, small="rw", tag="/arbitration"))
+    for k, pol in enumerate(AXL_POL):
+        if pol == "pipeline2":
+            continue
+        B(lambda pol=pol: mk_axi2axl(32, 32, pol=pol))
+    B(lambda: mk_axi2axl(64, 32, pol="accept-early", master=dict(max_len=7, max_out=2)))
+    B(lambda: mk_axi2axl(32, 16, pol="fast", master=dict(p_wr=0.8, p_rd=0.8, p_bready=0.9, p_rready=0.9, max_delay=0)))
+    B(lambda: mk_axi2axl(32, 32, tag="/garbage"))
+    B(lambda: mk_axl2axi(32, 32))
+    # ---- AHB2Wishbone
+    A(lambda: mk_ahb2wb(32, 2, small=True))
+    A(lambda: mk_ahb2wb(64, 3, small=True))
+    for pol in WB_POL:
+        B(lambda pol=pol: mk_ahb2wb(32, 32, pol=pol))
+    B(lambda: mk_ahb2wb(64, 32, pol="mixed"))
+    B(lambda: mk_ahb2wb(32, 16, addressing="byte", pol="mixed"))
+    B(lambda: mk_ahb2wb(64, 32, tag="/garbage"))
     # ---- Wishbone2AXILite
     A(lambda: mk_wb2axl(8, 2, base=4, small=True))
     A(lambda: mk_wb2axl(16, 3, base=2, small=True))
@@ -321,6 +426,10 @@ def search(ctx, disagreements, proof_info):
 F_ERR = "C09-axil2wb-err-ignored"
 F_BASE = "C09-wb2axil-base-address-dw64"            # fixed 8039af6
 F_UPLANE = "C09-axil-upconv-lane-follows-address-lines"
+F_RLAST = "C09-axi2axil-rlast-pipelined-slave"
+F_RESP = "C09-axi2axil-resp-swallowed"
+F_WAW = "C09-axi2axil-w-accepted-before-aw"
+F_AHBERR = "C09-ahb2wb-error-response-malformed"
 F_HANG = "C09-axil-downconv-write-hang"              # fixed f8f7de0
 F_UNAL = "C09-axil-downconv-unaligned-addr"          # fixed a1e11a3
 
@@ -374,9 +483,7 @@ def all_probes():
     w = [{"m.arvalid": 1, "m.araddr": 0x0, "s.arready": 1},
          {"m.arvalid": 1, "m.araddr": 0x4, "m.rready": 1, "s.rvalid": 1, "s.rdata": w64},
          {"m.arvalid": 1, "m.araddr": 0x4, "s.arready": 1}]
-    fails, what = run_witness(inst, w)
-    out.append((F_UPLANE, fails, "AXILiteUpConverter(32->64): AR 0x0 accepted, AR 0x4 presented while its R is "
-                                 "outstanding; " + what))
+    fa, wa = run_witness(inst, w)
     #    (b) W presented before its AW (previous write went to the other lane)
     inst = mk_axlup(32, 64, 32, pol="fast")
     w = [{"m.awvalid": 1, "m.awaddr": 0x4, "m.wvalid": 1, "m.wdata": 0x11111111, "m.wstrb": 0xf, "s.awready": 1,
@@ -385,9 +492,30 @@ def all_probes():
          {"m.wvalid": 1, "m.wdata": 0x22222222, "m.wstrb": 0xf},
          {"m.awvalid": 1, "m.awaddr": 0x0, "m.wvalid": 1, "m.wdata": 0x22222222, "m.wstrb": 0xf, "s.awready": 1,
           "s.wready": 1}]
-    fails, what = run_witness(inst, w)
-    out.append((F_UPLANE, fails, "AXILiteUpConverter(32->64): W for address 0x0 presented one cycle before its AW, "
-                                 "previous write to 0x4; " + what))
+    fb, wb_ = run_witness(inst, w)
+    out.append((F_UPLANE, fa or fb, "AXILiteUpConverter(32->64): (a) AR 0x0 accepted, AR 0x4 presented while its R is "
+                                    "outstanding: %s; (b) W for address 0x0 presented one cycle before its AW, previous "
+                                    "write to 0x4: %s" % (wa, wb_)))
+    # -- AXI2AXILite: r.last from _cmd_done with a slave that accepts the ARs of a burst before answering
+    inst = mk_axi2axl(32, 32, pol="pipeline2", partner=dict(depth=4, aw_before_w=True, ordered=True, p_resp=0.2),
+                      master=dict(p_wr=0.0, max_len=3, bursts=(1,), narrow=False))
+    fails, what = closed_loop_probe(inst, 21, 800)
+    out.append((F_RLAST, fails, "AXI2AXILite: INCR read bursts, AXI-Lite slave accepting up to 4 ARs before answering; " + what))
+    # -- AXI2AXILite: error responses swallowed / B answered before the AXI-Lite B responses
+    inst = mk_axi2axl(32, 32, pol="accept-early", p_err=0.5, master=dict(p_wr=0.0))
+    f1, w1 = closed_loop_probe(inst, 22, 800)
+    inst = mk_axi2axl(32, 32, pol="respond-late", master=dict(p_rd=0.0), mon_kw=dict(errs=True, b_order=True))
+    f2, w2 = closed_loop_probe(inst, 23, 800)
+    out.append((F_RESP, f1 or f2, "AXI2AXILite: (a) AXI-Lite slave answering SLVERR on reads: %s; (b) writes, slave "
+                                  "answering B late: %s" % (w1, w2)))
+    # -- AXI2AXILite: AXI-Lite slave that takes W beats before the AW beats
+    inst = mk_axi2axl(32, 32, pol="accept-late", partner=dict(depth=1, ordered=True), master=dict(p_rd=0.0, max_len=3))
+    fails, what = closed_loop_probe(inst, 24, 1500)
+    out.append((F_WAW, fails, "AXI2AXILite: write bursts, AXI-Lite slave free to accept W before AW; " + what))
+    # -- AHB2Wishbone: hresp is high only while hreadyout is low; the completing cycle shows OKAY
+    inst = mk_ahb2wb(32, 32, pol="mixed", p_err=0.4)
+    fails, what = closed_loop_probe(inst, 25, 800)
+    out.append((F_AHBERR, fails, "AHB2Wishbone: Wishbone slave answering ack & err; " + what))
     # -- fixed: down-converter write whose first sub-word is unstrobed, slave with aw/w.ready high while idle
     inst = mk_axldown(64, 32, 32, pol="fast", master="single")
     inst.env.master.strbs = (0xf0, 0xf0, 0x0f, 0xc0)
